@@ -1,0 +1,48 @@
+//go:build verif
+
+// Contracts for the core use case (in-memory version store: per-transaction stores, the main
+// transaction, the all-store), read by /verif/govc.
+package core
+
+
+// ---- durable version records, seen through the file repository interface ----
+
+//@ iface fileRepository.Set
+//@   params ctx, file
+//@   modifies world.recSeq, world.recTx, world.recKey, world.hasRec
+//@   ensures ok:     result == nil ==> world.hasRec[file.ContentId] && world.recSeq[file.ContentId] == file.Seq &&
+//@                      world.recTx[file.ContentId] == file.TxId && world.recKey[file.ContentId] == file.Key
+//@   ensures fail:   result != nil ==> world.hasRec[file.ContentId] == old(world.hasRec[file.ContentId]) && world.recSeq[file.ContentId] == old(world.recSeq[file.ContentId]) &&
+//@                      world.recTx[file.ContentId] == old(world.recTx[file.ContentId]) && world.recKey[file.ContentId] == old(world.recKey[file.ContentId])
+//@   ensures others: forall c string :: c != file.ContentId ==> world.hasRec[c] == old(world.hasRec[c]) && world.recSeq[c] == old(world.recSeq[c]) &&
+//@                      world.recTx[c] == old(world.recTx[c]) && world.recKey[c] == old(world.recKey[c])
+
+// ---- representation invariant ----
+
+//@ pure func regOk(u *UseCase, id string) bool =
+//@     u.txStore.store[id] != nil && toplevel(u.txStore.store[id]) && txInv(u.txStore.store[id]) &&
+//@     !u.txStore.store[id].WithoutSearch && u.txStore.store[id].gid == id
+
+// every version node that sits in a transaction's list has a partner in the all-store list of its key, with the same value
+//@ pure func linkInv(u *UseCase) bool =
+//@     (forall m *core.Node[model.File] :: m.owner != nil && m.link != nil ==>
+//@         toplevel(m.link) && m.link.linkOf == m && has(u.allStore.store, m.v.Key) && m.link.owner == &u.allStore.store[m.v.Key].l &&
+//@         m.link.v.Seq == m.v.Seq && m.link.v.Key == m.v.Key && m.link.v.TxId == m.v.TxId && m.link.v.ContentId == m.v.ContentId) &&
+//@     (forall m *core.Node[model.File] :: m.owner != nil && m.linkOf != nil ==> m.linkOf.link == m && m.linkOf.owner != nil)
+
+// every sequence number in any list has been drawn from the process-wide counter
+//@ pure func seqInv() bool = forall m *core.Node[model.File] :: m.owner != nil ==> 0 < m.v.Seq && m.v.Seq <= sequence.seq
+
+//@ pure func ucInv(u *UseCase) bool =
+//@     u != nil && u.txPool != nil && u.fileRepo != nil &&
+//@     txInv(&u.allStore) && u.allStore.WithoutSearch &&
+//@     (forall id string :: has(u.txStore.store, id) ==> regOk(u, id)) &&
+//@     linkInv(u) && seqInv()
+
+// storeToTx appends version f (freshly sequenced) to the transaction's list of its key and to the all-store.
+//@ func (*UseCase).storeToTx
+//@   requires inv:    ucInv(u)
+//@   requires tx:     has(u.txStore.store, tx.gid) && u.txStore.store[tx.gid] == tx
+//@   requires fresh:  f.Seq > 0 && f.Seq <= sequence.seq && forall m *core.Node[model.File] :: m.owner != nil ==> m.v.Seq < f.Seq
+//@   ensures  inv:    ucInv(u)
+
